@@ -162,16 +162,23 @@ class AbstractExcelInPython(ABC):
 
     @staticmethod
     def _regexp(pattern: str):
-        pattern_flags = r'(?<![~])[?]+|[*]+'
-        for item in re.finditer(pattern_flags, pattern):
-            match item:
-                case item if '?' in item.group():
-                    pattern = pattern.replace(item.group(), '.' + '{' + str(item.span()[1]-item.span()[0]) + '}', 1)
-                case item if '*' in item.group():
-                    pattern = pattern.replace(item.group(), '.*', 1)
-        pattern = re.sub(r'(?<=~)[?*]', r'\\\g<0>', pattern)
-        pattern = re.sub(r'[\[\]]', r'\\\g<0>', pattern)
-        return pattern
+        # ? stands for any character, * for any characters, ~ before ?, * or ~ cancels their special meaning
+        regexp = ''
+        position = 0
+        while position < len(pattern):
+            char = pattern[position]
+            if char == '~' and pattern[position + 1:position + 2] in ('?', '*', '~'):
+                position += 1
+                regexp += re.escape(pattern[position])
+            elif char == '?':
+                regexp += '.'
+            elif char == '*':
+                regexp += '.*'
+            else:
+                regexp += re.escape(char)
+            position += 1
+
+        return regexp
 
     @staticmethod
     def _binary_search(arr: List, lookup_value: any, reverse: bool = False):
@@ -671,24 +678,8 @@ class AbstractExcelInPython(ABC):
         find_text, within_text = [''.join(char.casefold() if len(char.casefold()) == 1 else char for char in text)
                                   for text in (find_text, within_text)]
 
-        # ? stands for any character, * for any characters, ~ before ?, * or ~ cancels their special meaning
-        pattern = ''
-        position = 0
-        while position < len(find_text):
-            char = find_text[position]
-            if char == '~' and find_text[position + 1:position + 2] in ('?', '*', '~'):
-                position += 1
-                pattern += re.escape(find_text[position])
-            elif char == '?':
-                pattern += '.'
-            elif char == '*':
-                pattern += '.*'
-            else:
-                pattern += re.escape(char)
-            position += 1
-
         # the first occurrence that begins at start_num or later
-        found = re.compile(pattern, re.DOTALL).search(within_text, start_num - 1)
+        found = re.compile(self._regexp(find_text), re.DOTALL).search(within_text, start_num - 1)
         return found.start() + 1 if found else '#VALUE!'
 
     def _network_days(self, date_start: datetime.datetime, date_end: datetime.datetime,
